@@ -981,9 +981,12 @@ void matterDirected(vh::Rng& r) {
     for (int t = 0; t < M_NTYPES; ++t) for (int rev = 0; rev < 2; ++rev) {
         MatterSys M; M.type = std::string(MTYPE_NAMES[t]) + (rev ? "_reversed" : "");
         M.euler = r.coin();
-        MobilizedBody a = addMobilizer(M.S, r, M.S.matter.Ground(), r.below(M_NTYPES), r.coin());
+        // neighbours from a small set of plain built-in types, so that a failing key names the culprit (arbitrary
+        // combinations are the business of the `mixed` random cases)
+        static const int plain[4] = { M_Pin, M_Slider, M_Universal, M_Ball };
+        MobilizedBody a = addMobilizer(M.S, r, M.S.matter.Ground(), plain[r.below(4)], r.coin());
         MobilizedBody b = addMobilizer(M.S, r, a, t, rev != 0);
-        MobilizedBody c = addMobilizer(M.S, r, b, r.below(M_NTYPES), r.coin());
+        MobilizedBody c = addMobilizer(M.S, r, b, plain[r.below(4)], r.coin());
         M.S.bodies = { a, b, c };
         buildMatterForces(M.S, r);
         M.S.sys.realizeTopology();
